@@ -13,7 +13,7 @@ from ._pairs import V
 
 PID = "C17"
 LEVEL = "model_checking"
-WITNESSES = ["ks_strictly_between_0_and_1", "ks_full_stress", "et0_adjustment_switched_off", "cold_coefficient_partial", "heat_coefficient_zero", "gdd_clipped_low", "gdd_clipped_high",
+WITNESSES = ["stress_reduced_growth_coefficient", "ks_strictly_between_0_and_1", "ks_full_stress", "et0_adjustment_switched_off", "cold_coefficient_partial", "heat_coefficient_zero", "gdd_clipped_low", "gdd_clipped_high",
              "growth_curve_decay_stage", "decline_curve_reaches_zero", "inverse_checked", "fco2_above_1", "fco2_below_1", "fco2_season_reset_site", "fco2_overridden_sink_strength", "aeration_stress_active", "aeration_switched_off_crop", "growth_curve_starts_in_decay_stage", "fco2_overridden_water_productivity"]
 NONTRIVIAL = WITNESSES
 TOL = 1e-12
@@ -172,13 +172,18 @@ def run(scn):
         # passes in can be barely above CC0: the curve then starts in its decay stage)
         fxs = [0.5, 1.0, 1.0 / max(float(crop.CCx), 1e-9) * min(1.0, float(crop.CCx) * 1.5)]
         fxs += [k * cc0 / max(float(crop.CCx), 1e-9) for k in (1.2, 1.5, 1.9, 2.0, 2.5, 4.0)]
-        for fx, fg, fd in itertools.product(fxs, [0.5, 1.0, 1.5], [0.5, 1.0, 1.5]):
+        # growth coefficients: the crop's own x {0.5, 1, 1.5}, and reduced by severe leaf-expansion stress (the model passes CGC x Ks_exp,
+        # with Ks_exp down to a few thousandths; per-degree-day coefficients then drop below 1e-4) - there the time axis is stretched
+        combos = list(itertools.product(fxs, [0.5, 1.0, 1.5], [0.5, 1.0, 1.5])) + list(itertools.product(fxs, [0.1, 0.02, 0.005, 0.001], [1.0]))
+        for fx, fg, fd in combos:
             ccx = min(1.0, float(crop.CCx) * fx)
+            if fg < 0.5:
+                hit("stress_reduced_growth_coefficient")
             if cc0 > ccx / 2:
                 hit("growth_curve_starts_in_decay_stage")
             cgc, cdc = cgc0 * fg, cdc0 * fd
             pg = pd_ = None
-            for t in np.linspace(0, span, nt + 1):
+            for t in np.linspace(0, span / min(1.0, fg * 2), nt + 1):
                 g = float(cc_development(cc0, ccx, cgc, cdc, float(t), "Growth", ccx))
                 d = float(cc_development(cc0, ccx, cgc, cdc, float(t), "Decline", ccx))
                 nodes += 1
